@@ -6,7 +6,7 @@ Model: `AvroModel/File.lean`; valid files as in `Props/C07.lean`. For a valid fi
 `f = hdr ++ body H.sync bl` and every cut position `k ≤ f.length` (the file a writer leaves behind
 when it dies after `k` bytes) `truncation` gives the exact behaviour of the reader on `f.take k`.
 
-The boundary, decided from the code (file.go:182-212): a block's records are handed to the
+The boundary, decided from the code (file.go:177-208): a block's records are handed to the
 callback as soon as its *payload* is completely present (`io.ReadFull` of the payload succeeded),
 before the 16-byte sync marker is read. So with `payloadEnd i` the absolute position just after
 block `i`'s payload and `blockEnd i` the position just after its sync marker:
